@@ -704,7 +704,19 @@ func (ctx *Context) evaluate() {
 			}
 
 			d := &details[len(details)-1]
-			dText := string(ctx.parser.data[d.Begin:d.End])
+			// 预编译的函数体/计算类型的原文去掉了末尾空白，而 mark.detail 的范围可能还包含被 ")" 吞掉的空白，
+			// 所以范围要按原文长度截断(makeDetailStr 里同理)
+			dBegin, dEnd := int(d.Begin), int(d.End)
+			if dEnd > len(ctx.parser.data) {
+				dEnd = len(ctx.parser.data)
+			}
+			if dBegin < 0 {
+				dBegin = 0
+			}
+			if dBegin > dEnd {
+				dBegin = dEnd
+			}
+			dText := string(ctx.parser.data[dBegin:dEnd])
 
 			if !regexp.MustCompile("[dD][优優劣][势勢]").MatchString(dText) {
 				s := &diceStates[diceStateIndex]
